@@ -1,6 +1,7 @@
-(** C13, part 6b: per-step preservation of [loadable] (see Proofs/MigrateLoadable.v). *)
+(** C13, part 6b: per-step preservation of [loadable], steps 11, 12, 18, 20, 21, 25, 28
+    (see Proofs/MigrateLoadable.v; lemmas and tactics of Proofs/MigrateLoadTools.v). *)
 From Coq Require Import List ZArith String Ascii Bool Lia Arith.
-From AGH Require Import Model.Migrate Model.MigrateLoad Proofs.Migrate Proofs.MigrateFrame Proofs.MigrateLoadable.
+From AGH Require Import Model.Migrate Model.MigrateLoad Proofs.Migrate Proofs.MigrateLoadable Proofs.MigrateLoadTools.
 Import ListNotations.
 Local Open Scope string_scope.
 Local Open Scope list_scope.
@@ -9,21 +10,87 @@ Section WithOracles.
 Variable O : oracles.
 
 Lemma keep11 : step_keeps L 10 (step11).
-Proof. unfold step11. pres_step. Qed.
+Proof.
+  intros m m' Hm E. open_schema Hm. open_goal. unfold step11 in E. stamp_in Hm E m0.
+  destruct (fv_val_int m0 "rlimit_nofile") as [z Hz].
+  assert (E' : m' = upd "os" (VObj [("group", VStr ""); ("rlimit_nofile", VInt z); ("user", VStr "")])
+                      (del "rlimit_nofile" m0)).
+  { rewrite <- Hz. destruct (field_val TInt m0 "rlimit_nofile"); try discriminate E; injection E as <-; reflexivity. }
+  subst m'. clear E Hz.
+  refine (fin_upd _ _ "os" _ _ (fok_del_same _ _ "rlimit_nofile" Hm) _ _); vmr.
+Qed.
 
 Lemma keep12 : step_keeps L 11 (step12).
-Proof. unfold step12. pres_step. Qed.
+Proof.
+  intros m m' Hm E. open_schema Hm. open_goal. unfold step12 in E. stamp_in Hm E m0.
+  let fo := goal_obj_fields "dns" in
+  refine (with_obj_fok _ _ _ _ _ _ _ fo _ E Hm eq_refl _ _); [|vmr].
+  clear. intros o o' Ho Ef. cbv zeta in Ef.
+  destruct (field_val TInt o "querylog_interval"); try discriminate Ef; injection Ef as <-;
+    (refine (fin_set _ _ "querylog_interval" SDur _ _ Ho _ _); [reflexivity|vmr]).
+Qed.
 
 Lemma keep18 : step_keeps L 17 (step18).
-Proof. unfold step18. pres_step. Qed.
+Proof.
+  intros m m' Hm E. open_schema Hm. open_goal. unfold step18 in E. stamp_in Hm E m0.
+  let fo := goal_obj_fields "dns" in
+  refine (with_obj_fok _ _ _ _ _ _ _ fo _ E Hm eq_refl _ _); [|vmr].
+  clear. intros o o' Ho Ef.
+  destruct (move_val TBool o safe_search0 "safesearch_enabled" "enabled") as [[o1 ss]|] eqn:Mv; [|discriminate Ef].
+  injection Ef as <-.
+  let fss := goal_obj_fields "safe_search" in assert (H0 : fields_ok safe_search0 fss = true) by vmr.
+  do_moves Mv Ho H0 Hs Hd.
+  refine (fin_set_obj _ _ "safe_search" false _ _ _ Hs Hd _). vmr.
+Qed.
 
 Lemma keep20 : step_keeps L 19 (step20).
-Proof. unfold step20. pres_step. Qed.
+Proof.
+  intros m m' Hm E. open_schema Hm. open_goal. unfold step20 in E. stamp_in Hm E m0.
+  let fo := goal_obj_fields "statistics" in
+  refine (with_obj_fok _ _ _ _ _ _ _ fo _ E Hm eq_refl _ _); [|vmr].
+  clear. intros o o' Ho Ef. cbv zeta in Ef.
+  destruct (field_val TInt o "interval"); try discriminate Ef; injection Ef as <-;
+    (refine (fin_set _ _ "interval" SDur _ _ Ho _ _); [reflexivity|vmr]).
+Qed.
 
 Lemma keep21 : step_keeps L 20 (step21).
-Proof. unfold step21. pres_step. Qed.
+Proof.
+  intros m m' Hm E. open_schema Hm. open_goal. unfold step21 in E. stamp_in Hm E m0.
+  let fo := goal_obj_fields "dns" in
+  refine (with_obj_fok _ _ _ _ _ _ _ fo _ E Hm eq_refl _ _); [|vmr].
+  clear. intros o o' Ho Ef.
+  destruct (move_val TArr o [("schedule", schedule0)] "blocked_services" "ids") as [[o1 svcs]|] eqn:Mv;
+    [|discriminate Ef].
+  injection Ef as <-.
+  let fb := goal_obj_fields "blocked_services" in
+  assert (H0 : fields_ok [("schedule", schedule0)] fb = true) by vmr.
+  do_moves Mv Ho H0 Hs Hd.
+  refine (fin_set_obj _ _ "blocked_services" false _ _ _ Hs Hd _). vmr.
+Qed.
 
 Lemma keep25 : step_keeps L 24 (step25).
-Proof. unfold step25. pres_step. Qed.
+Proof.
+  intros m m' Hm E. open_schema Hm. open_goal. unfold step25 in E. stamp_in Hm E m0.
+  destruct (field_val TObj m0 "http") as [|hv|] eqn:F; try discriminate E; [injection E as <-; fin Hm|].
+  destruct (fv_obj_ok _ _ _ F) as [http [-> G]]. cbn [zobj] in E.
+  destruct (move_val TBool m0 pprof0 "debug_pprof" "enabled") as [[m1 pprof]|] eqn:Mv; [|discriminate E].
+  injection E as <-.
+  pose proof (obj_field _ _ _ _ _ _ Hm G eq_refl) as Hh.
+  let fh := goal_obj_fields "http" in let fp := obj_fields_in "pprof" fh in
+  assert (H0 : fields_ok pprof0 fp = true) by vmr.
+  do_moves Mv Hm H0 Hs Hd.
+  pose proof (fok_set_obj _ _ "pprof" false _ _ Hh Hd) as H1.
+  refine (fin_set_obj _ _ "http" false _ _ _ Hs H1 _). vmr.
+Qed.
+
+Lemma keep28 : step_keeps L 27 step28.
+Proof.
+  intros m m' Hm E. open_schema Hm. open_goal. unfold step28 in E. stamp_in Hm E m0.
+  let fo := goal_obj_fields "dns" in
+  refine (with_obj_fok _ _ _ _ _ _ _ fo _ E Hm eq_refl _ _); [|vmr].
+  clear. intros o o' Ho Ef. cbv zeta in Ef. injection Ef as <-.
+  apply fok_del, fok_del.
+  refine (fin_set _ _ "upstream_mode" SStr _ _ Ho _ _); [reflexivity|vmr].
+Qed.
 
 End WithOracles.
